@@ -150,14 +150,18 @@ def make_case(rng, cid, T, depth, fmt, dtag, run="serial", pleaf=None, stale_p=0
     if pleaf is None:
         pleaf = rng.choice([0.25, 0.5, 0.8, 1.0])
     inf_classes = []
-    if mode == "Float" and (shape == "inf-mix" or rng.random() < 0.25):
+    if run.startswith("decim"):
+        # a custom merger following the Merger Protocol (decimation: a VIEW of its input).  Every leaf is one constant,
+        # fully defined value, so that any block reduction - mean or pick - gives the same tile at every level
+        keepu = False
+    elif mode == "Float" and (shape == "inf-mix" or rng.random() < 0.25):
         inf_classes = ["p", "n", "both", "only"] if shape == "inf-mix" else [rng.choice(["p", "n", "both", "only"]), None]
     if shape == "inf-mix":
         pleaf = max(pleaf, 0.6)
     for l in all_leaves:
         if rng.random() >= pleaf:
             continue
-        if fmt == "jpg":
+        if fmt == "jpg" or run.startswith("decim"):
             style = "const"
         else:
             style = rng.choice(["rand", "rand", "rand", "full", "one", "row"] + (["allu"] if (can_u or mode == "Int") else []))
@@ -256,7 +260,7 @@ def make_case(rng, cid, T, depth, fmt, dtag, run="serial", pleaf=None, stale_p=0
     negzero = mode == "Float" and rng.random() < (0.5 if shape in ("zero-min", "zero-max") else 0.15)
     rewrite = fmt in ("fits", "npy") and rng.random() < (rewrite_p if rewrite_p is not None else 0.15)
     names = DIR_NAMES + (DIR_NAMES_GLOB if GLOB_DIRS[0] else [])
-    return {"dirname": rng.choice(names), "spelling": rng.choice(SPELLINGS), "fmt_route": rng.choice(["explicit", "explicit", "guessed"]),
+    return {"warn_env": "error" if (mode == "Float" and rng.random() < 0.3) else "quiet", "dirname": rng.choice(names), "spelling": rng.choice(SPELLINGS), "fmt_route": rng.choice(["explicit", "explicit", "guessed"]),
             "id": cid, "T": T, "depth": depth, "fmt": fmt, "dtag": dtag, "mode": mode, "run": run, "keepu": bool(keepu),
             "leaves": leaves, "stale": stale, "live": live, "sv": sv, "scale": scale,
             "has_data": bool(has_data), "has_finite": has_finite, "negzero": negzero, "rewrite": rewrite}
@@ -566,6 +570,11 @@ def _handle(base, root, meta):
     return pio, spelled, explicit
 
 
+def _decimating_merger(big):
+    """A merger that follows the Merger Protocol and returns a view of its input: the top-left pixel of every block."""
+    return big[::2, ::2]
+
+
 def _run_cascade(pio, base, meta, rec, run, spelled=None, explicit=True):
     """Run one flavour of the real cascade.  Returns extra observations (builder runs)."""
     from toasty.merge import cascade_images, averaging_merger
@@ -594,6 +603,8 @@ def _run_cascade(pio, base, meta, rec, run, spelled=None, explicit=True):
         root = ET.parse(os.path.join(base, "index_rel.wtml")).getroot()
         sets = [e for e in root.iter("ImageSet")]
         obs["wtml"] = [(float(e.get("DataMin", "0")), float(e.get("DataMax", "0"))) for e in sets]
+    elif run.startswith("decim"):
+        cascade_images(pio, depth, _decimating_merger, parallel=par)
     else:
         cascade_images(pio, depth, averaging_merger, parallel=par)
     return obs
@@ -610,7 +621,12 @@ def replay_case(job):
     repo.setup()
     import numpy as np
     import warnings
+    # the process-wide warning filters the cascade runs under are part of the environment: quiet (everything ignored), or an
+    # application that escalates RuntimeWarnings to errors (installed after toasty was imported)
+    warnings.resetwarnings()
     warnings.simplefilter("ignore")
+    if meta.get("warn_env") == "error" and not meta["run"].startswith("builder"):     # (Builder.cascade's pixel-cut percentiles are not the cascade)
+        warnings.simplefilter("error", RuntimeWarning)
     out = []
     fmt, depth, T, mode, run = meta["fmt"], meta["depth"], meta["T"], meta["mode"], meta["run"]
     fam = "%s-%s" % (fmt, meta["dtag"])
@@ -860,7 +876,7 @@ QUICK_PLAN = [
     ("npy", "f4", 8, 10), ("npy", "f8", 4, 4), ("npy", "u1", 5, 6), ("npy", "i2", 3, 3), ("npy", "i4", 4, 4),
     ("png", "rgba", 10, 10), ("png", "rgb", 5, 6), ("jpg", "rgb", 2, 2),
 ]
-PARALLEL_PLAN_QUICK = [("npy", "i2", "twice-par2"), ("fits", "f4", "par2"), ("fits", "f4", "par3"), ("npy", "f4", "par2"), ("npy", "u1", "par3"),
+PARALLEL_PLAN_QUICK = [("fits", "f8", "decim-par2"), ("npy", "i2", "twice-par2"), ("fits", "f4", "par2"), ("fits", "f4", "par3"), ("npy", "f4", "par2"), ("npy", "u1", "par3"),
                        ("png", "rgba", "par2"), ("png", "rgb", "cli-par2"), ("fits", "i2", "cli-par2"),
                        ("npy", "f8", "filter-par2"), ("fits", "f8", "par2"), ("png", "rgba", "par3")]
 
@@ -902,6 +918,8 @@ def build_cases(ctx, T, depth, plan, parallel_plan, mult=1, allow_keepu=True, re
             # an empty start level through every route: API, CLI entry point, filtered, Builder.cascade, 2 processes
             for r_ in (["serial", "cli", "filter", "par2"] + (["builder"] if fmt == "fits" else []))[: 5 if depth >= 2 else 2]:
                 new(fmt, dtag, shape="empty-start", run=r_, stale_p=1.0)
+        if (fmt, dtag) in (("npy", "f4"), ("fits", "f4"), ("png", "rgba"), ("npy", "u1")) and depth >= 1:
+            new(fmt, dtag, run="decim", pleaf=0.6)
         if CONFIGS[(fmt, dtag)] == "Int" and depth >= 1:
             new(fmt, dtag, shape="int-low", run="serial", stale_p=0.0)
         if (fmt, dtag) in (("npy", "f4"), ("fits", "f4"), ("png", "rgba"), ("npy", "u1"), ("fits", "i2")) and depth >= 1:
